@@ -179,6 +179,38 @@ def r6(tree, rep):
     rep.check("C14.R6", "Deferreds created by the client (%d sites) were examined for cancellers" % n, n > 0)
 
 
+def r7(tree, rep):
+    """an `assert` about a value another machine built is an agreement between the two: Code.do_finish_allocate asserts
+    code.startswith(nameplate + "-") for what Allocator.build_and_notify hands it - discharged by the shape of that builder
+    (<nameplate> + "-" + <words>, for every word count including zero; the rule instance is C19.R5:build_and_notify)"""
+    from ..automat_x import Program
+    from . import C19
+    prog = Program(tree)
+    CODE = prog.machine("Code")
+    asserts = []
+    for name, fn in CODE.outputs.items():
+        for a in ast.walk(fn):
+            if isinstance(a, ast.Assert) and any(isinstance(c, ast.Call) and isinstance(c.func, ast.Attribute) and c.func.attr == "startswith"
+                                                 for c in ast.walk(a.test)):
+                asserts.append((name, a))
+    if not asserts:
+        rep.check("C14.R7", "Code asserts nothing about the shape of an allocated code", True, CODE.file, key="C14.R7:no-assert")
+        return
+    sub = type(rep)(rep.pid, rep.tier, rep.seed)
+    try:
+        C19.r5(tree, sub)
+    except AnalysisError:
+        pass
+    ob = [o for o in sub.obligations if "build_and_notify" in str(o.get("key", "")) or "allocated code is" in o["instance"]]
+    bad = [v for v in sub.violations if v["key"] == "C19.R5:build_and_notify"]
+    for (name, a) in asserts:
+        rep.check("C14.R7", "Code.%s: `%s` holds for every code the Allocator builds (<nameplate> + '-' + choose_words(n), n >= 0)"
+                  % (name, ast.unparse(a.test)[:60]), bool(ob) and not bad, site(a, CODE.file), key="C14.R7:Code.%s:assert-discharged" % name,
+                  what="Code.%s asserts `%s`, but Allocator.build_and_notify no longer builds the code as <nameplate> + '-' + <words> for "
+                       "every word count: allocate_code(0) (legal) trips the assertion inside the handler of `allocated` - an internal "
+                       "AssertionError instead of a code" % (name, ast.unparse(a.test)[:60]))
+
+
 def run(tree, rep, tier):
     r6(tree, rep)
     from .. import sharedstate
@@ -187,6 +219,7 @@ def run(tree, rep, tier):
     r3(tree, rep)
     r4(tree, rep, tier)
     r5(tree, rep)
+    r7(tree, rep)
     r1(tree, rep, tier)
 
 
